@@ -78,7 +78,9 @@ class C13(ProgramProperty):
         rng.shuffle(pm2)
         steps += [{"op": "upgrade", "data": pm}, {"op": "upgrade", "data": pm2}]
         steps += [{"op": "load_file_pm", "dst": 6, "data": bij, "as": rng.choice(["str", "relstr"]),
-                   "name": rng.choice(["pm.json", "http_prefixes.json", "ftpdata.json", "https.json", "h.json"])},
+                   "name": rng.choice(["pm.json", "http_prefixes.json", "ftpdata.json", "https.json", "h.json",
+                                      # local files whose names look like "scheme:rest" when given as relative str
+                                      "obo:prefixes.json", "v1.2:ppm.json", "c:x.json", "file:pm.json", "urn:x:y.json"])},
                   {"op": "load_file_pm", "dst": 7, "data": bij, "as": "path"},
                   {"op": "load_file_jsonld", "dst": 8, "data": ctx, "as": rng.choice(["str", "path"])},
                   {"op": "load_file_epm", "dst": 9, "records": recs, "as": rng.choice(["str", "path"])}]
